@@ -160,6 +160,20 @@ func renderNode(w io.Writer, node *html.Node, indent int) error {
 	return renderNodeWithContext(ctx, w, node, indent)
 }
 
+// keptNewline returns the line break that has to follow the start tag of a
+// <pre>, <textarea> or <listing> whose content begins with one: an HTML parser
+// drops a newline that comes directly after these start tags, so content that
+// starts with a newline is written with two.
+func keptNewline(tagName string, firstChild *html.Node) string {
+	switch tagName {
+	case "pre", "textarea", "listing":
+		if firstChild != nil && firstChild.Type == html.TextNode && strings.HasPrefix(firstChild.Data, "\n") {
+			return "\n"
+		}
+	}
+	return ""
+}
+
 func renderNodeWithContext(ctx VueContext, w io.Writer, node *html.Node, indent int) error {
 	verifPoint(vpSerializeNode, indent, 0)
 	switch node.Type {
@@ -277,7 +291,7 @@ func renderNodeWithContext(ctx VueContext, w io.Writer, node *html.Node, indent 
 		if childCount == 0 {
 			_, _ = w.Write([]byte(spaces + "<" + tagName + renderAttrs(node.Attr) + "></" + tagName + ">" + nl))
 		} else if childCount == 1 && firstChild.Type == html.TextNode {
-			_, _ = w.Write([]byte(spaces + "<" + tagName + renderAttrs(node.Attr) + ">"))
+			_, _ = w.Write([]byte(spaces + "<" + tagName + renderAttrs(node.Attr) + ">" + keptNewline(tagName, firstChild)))
 			// Skip HTML escaping inside script and style tags
 			if tagName == "script" || tagName == "style" {
 				_, _ = w.Write([]byte(firstChild.Data))
@@ -292,7 +306,7 @@ func renderNodeWithContext(ctx VueContext, w io.Writer, node *html.Node, indent 
 			if tagName == "pre" || nl == "" {
 				openNL, closeIndent = "", ""
 			}
-			_, _ = w.Write([]byte(spaces + "<" + tagName + renderAttrs(node.Attr) + ">" + openNL))
+			_, _ = w.Write([]byte(spaces + "<" + tagName + renderAttrs(node.Attr) + ">" + openNL + keptNewline(tagName, firstChild)))
 			ctx.PushTag(tagName)
 			childIndent := indent + 2
 			for c := firstChild; c != nil; c = c.NextSibling {
